@@ -36,6 +36,10 @@ type SiteAssert struct {
 	Ordinal int    // 0 = every matching call
 	Clause  *Clause
 	Assume  bool
+	// Optional: the clause constrains every matching call but need not match one ("assert any
+	// call p: e"): used to say that a kind of call, if the code ever makes it, happens only
+	// under e
+	Optional bool
 }
 
 type LetDef struct {
@@ -598,8 +602,13 @@ func (c *Contracts) parseFile(path, pkgPath string) error {
 				isDef = true
 				when = "def"
 				txt = strings.TrimSpace(strings.TrimPrefix(txt, "def"))
-			} else if !strings.HasPrefix(txt, "call ") {
+			} else if !strings.HasPrefix(txt, "call ") && !strings.HasPrefix(txt, "any call ") {
 				return fmt.Errorf("%s:%d: malformed site clause (need '[after] call <pattern>: expr' or 'def <var>: expr')", path, r.line)
+			}
+			optional := false
+			if strings.HasPrefix(txt, "any call ") {
+				optional = true
+				txt = strings.TrimSpace(strings.TrimPrefix(txt, "any"))
 			}
 			if !isDef {
 				txt = strings.TrimSpace(strings.TrimPrefix(txt, "call"))
@@ -618,7 +627,7 @@ func (c *Contracts) parseFile(path, pkgPath string) error {
 			if err != nil {
 				return err
 			}
-			cur.Asserts = append(cur.Asserts, &SiteAssert{When: when, Pattern: pat, Ordinal: ord, Clause: cl, Assume: r.kw == "assume"})
+			cur.Asserts = append(cur.Asserts, &SiteAssert{When: when, Pattern: pat, Ordinal: ord, Clause: cl, Assume: r.kw == "assume", Optional: optional})
 		}
 	}
 	return nil
